@@ -856,3 +856,40 @@ pub broadcast group group_knuth {
     lemma_normalize, lemma_digit_init, lemma_wrapping_mul_add_sub_mul,
     lemma_knuth_final, lemma_shr_p2_b,
 }
+
+// ---- rounding is invariant under shifting the (positive) quotient by 10: sign, parity and the last
+// digit modulo 5 of the quotient do not change
+pub proof fn lemma_round_div_shift10(num: int, den: int, mode: RoundingMode)
+    requires den > 0, num - 10 * den > 0
+    ensures round_div(num - 10 * den, den, mode) == round_div(num, den, mode) - 10
+{
+    let f = num / den;
+    let r = num % den;
+    lemma_div_forms(num, den);
+    assert((f - 10) * den == f * den - 10 * den) by (nonlinear_arith);
+    lemma_div_mod_unique(num - 10 * den, den, f - 10, r);
+    assert((f - 10) % 2 == f % 2);
+    assert((f - 10) % 5 == f % 5);
+    assert((f - 9) % 5 == (f + 1) % 5);
+}
+
+/// the floor quotient is exactly i128::MAX and something is left over: the rounded value is MAX or MAX + 1,
+/// and which one can be read off the rounding of the quotient shifted down by 10
+pub proof fn lemma_round_at_max(rem: int, den: int, mode: RoundingMode)
+    requires den > 0, 0 < rem < den
+    ensures ({
+        let n = i128::MAX * den + rem;
+        let v = round_div(n, den, mode);
+        let w = round_div((i128::MAX - 10) * den + rem, den, mode);
+        &&& (v == i128::MAX || v == i128::MAX + 1)
+        &&& (w == i128::MAX - 10 || w == i128::MAX - 9)
+        &&& (w == i128::MAX - 10 <==> v == i128::MAX)
+    })
+{
+    let n = i128::MAX * den + rem;
+    lemma_floor_form(i128::MAX as int, rem, den);
+    lemma_round_div_near(n, den, mode);
+    assert((i128::MAX - 10) * den == i128::MAX * den - 10 * den) by (nonlinear_arith);
+    assert(n - 10 * den > 0) by (nonlinear_arith) requires n == i128::MAX * den + rem, den > 0, rem > 0;
+    lemma_round_div_shift10(n, den, mode);
+}
